@@ -146,4 +146,103 @@ def stakeUndelegate (e : Env) (s : State) (g0 : Dec) (del : Addr) (val : ValAddr
         | .ok s' => (g', pure { s' with staking := { s'.staking with unbonding := addUnbondingEntry s'.staking.unbonding del val } })
       else (g', pure s)
 
+/-- x/staking `MaxEntries` also caps the redelegation entries of a (delegator, source, destination) triple -/
+def StakingView.redelegationEntries (v : StakingView) (del : Addr) (src dst : ValAddr) : Nat :=
+  ((v.redelegations.find? (fun u => u.del = del ∧ u.src = src ∧ u.dst = dst)).map (·.entries)).getD 0
+
+/-- `HasReceivingRedelegation`: the delegator has a redelegation in progress whose destination is `val` -/
+def StakingView.hasReceivingRedelegation (v : StakingView) (del : Addr) (val : ValAddr) : Bool :=
+  v.redelegations.any (fun u => u.del = del ∧ u.dst = val)
+
+/-- one more pending entry for the triple; the list is kept in (delegator, source, destination) order -/
+def addRedelegationEntry (l : List RedelegationV) (del : Addr) (src dst : ValAddr) : List RedelegationV :=
+  match l with
+  | [] => [{ del := del, src := src, dst := dst, entries := 1 }]
+  | u :: t =>
+    if u.del = del ∧ u.src = src ∧ u.dst = dst then { u with entries := u.entries + 1 } :: t
+    else if del < u.del ∨ (del = u.del ∧ (src < u.src ∨ (src = u.src ∧ dst < u.dst))) then
+      { del := del, src := src, dst := dst, entries := 1 } :: u :: t
+    else u :: addRedelegationEntry t del src dst
+
+/-- the checks of `BeginRedelegate` before anything is written: the unbond amount, the two validators, no transitive
+    redelegation, not too many entries. Returns source validator, source delegation, destination validator, shares. -/
+def redelegateGuards (s : State) (del : Addr) (src dst : ValAddr) (amt : Int) : TxM (ValidatorV × DelegationV × ValidatorV × Dec) :=
+  match s.staking.validator src, s.staking.delegation del src with
+  | none, _ => throw "validator not found"
+  | _, none => throw "no delegation"
+  | some v, some d =>
+    if v.tokens = 0 then throw "insufficient shares" else
+    let shares := Dec.quoInt (Dec.mulInt v.shares amt) v.tokens
+    if shares > d.shares then throw "invalid shares amount" else
+    if src = dst then throw "cannot redelegate to the same validator" else
+    match s.staking.validator dst with
+    | none => throw "redelegation destination validator not found"
+    | some v2 =>
+      if s.staking.hasReceivingRedelegation del src then throw "redelegation to this validator already in progress" else
+      if s.staking.redelegationEntries del src dst ≥ MaxUnbondingEntries then throw "too many redelegation entries" else
+      pure (v, d, v2, shares)
+
+/-- `Unbond(del, src, shares)`: the hooks run as for an undelegation, the delegation shrinks or disappears, the validator
+    loses the tokens the shares are worth. Returns the package variable where the step ended, and on success the state, the
+    variable and the tokens returned. -/
+def redelegateUnbond (e : Env) (s : State) (v : ValidatorV) (d : DelegationV) (del : Addr) (src : ValAddr) (shares : Dec) :
+    Dec × TxM (State × Dec × Int) :=
+  -- BeforeDelegationSharesModified(src)
+  let g : Dec := d.shares
+  let d' : DelegationV := { d with shares := d.shares - shares }
+  let r : TxM (State × Dec) :=
+    if d'.shares = (0 : Int) then do
+      let (s, g') ← verifySuper e s g src (some del) true
+      pure ({ s with staking := { s.staking with delegations := s.staking.delegations.filter (fun x => !(x.del = del ∧ x.val = src)) } }, g')
+    else do
+      let s := { s with staking := { s.staking with delegations := setDelegation e s.staking.delegations d' } }
+      verifySuper e s g src (some del) false
+  match r with
+  | .error m => (g, throw m)
+  | .ok (s, g') =>
+    -- RemoveValidatorTokensAndShares(src)
+    let remaining := v.shares - shares
+    let issuedTokens := if remaining = 0 then v.tokens else Dec.truncate (Dec.quo (Dec.mulInt shares v.tokens) v.shares)
+    let v' := { v with tokens := v.tokens - issuedTokens, shares := remaining }
+    (g', pure ({ s with staking := { s.staking with validators := setValidator s.staking.validators v' } }, g', issuedTokens))
+
+/-- `Delegate(del, tokens, src status, dst validator, subtractAccount = false)` and the redelegation entry -/
+def redelegateDelegate (e : Env) (s : State) (g' : Dec) (v v2 : ValidatorV) (del : Addr) (src dst : ValAddr) (tokens : Int) : Dec × TxM State :=
+  if v2.shares ≠ 0 ∧ v2.tokens = 0 then (g', throw "invalid exchange rate") else
+  let existing := s.staking.delegation del dst
+  let g2 : Dec := match existing with
+    | some d2 => d2.shares      -- BeforeDelegationSharesModified(dst)
+    | none => g'                -- BeforeDelegationCreated(dst) does nothing
+  let moved : TxM State :=
+    if v.status = 3 ∧ v2.status ≠ 3 then s.send e.modBonded e.modNotBonded tokens
+    else if v.status ≠ 3 ∧ v2.status = 3 then s.send e.modNotBonded e.modBonded tokens
+    else pure s
+  match moved with
+  | .error m => (g2, throw m)
+  | .ok s =>
+    let issued : Dec := if v2.shares = 0 then Dec.ofInt tokens else Dec.quoInt (Dec.mulInt v2.shares tokens) v2.tokens
+    let v2' := { v2 with tokens := v2.tokens + tokens, shares := v2.shares + issued }
+    let d2' : DelegationV := { del := del, val := dst, shares := (existing.map (·.shares)).getD 0 + issued }
+    let s := { s with staking := { s.staking with validators := setValidator s.staking.validators v2',
+                                                  delegations := setDelegation e s.staking.delegations d2' } }
+    match verifySuper e s g2 dst (some del) false with
+    | .error m => (g2, throw m)
+    | .ok (s', g3) =>
+      -- getBeginInfo: an unbonded source completes at once; otherwise the redelegation is recorded
+      if v.status = 1 then (g3, pure s')
+      else (g3, pure { s' with staking := { s'.staking with redelegations := addRedelegationEntry s'.staking.redelegations del src dst } })
+
+/-- `msgServer.BeginRedelegate`: `Unbond` from the source validator, then `Delegate` the returned tokens to the destination
+    without touching the delegator's account; the coins move between the staking pools only when the two validators differ
+    in bonded status -/
+def stakeRedelegate (e : Env) (s : State) (g0 : Dec) (del : Addr) (src dst : ValAddr) (amt : Int) : Dec × TxM State :=
+  match redelegateGuards s del src dst amt with
+  | .error m => (g0, throw m)
+  | .ok (v, d, v2, shares) =>
+    match redelegateUnbond e s v d del src shares with
+    | (g, .error m) => (g, throw m)
+    | (_, .ok (s1, g', tokens)) =>
+      if tokens = 0 then (g', throw "too few tokens to redelegate")
+      else redelegateDelegate e s1 g' v v2 del src dst tokens
+
 end SaoVerif
